@@ -4,5 +4,7 @@ CONSTANTS
   MaxOps = 5
   Mode = "own"
   NP = 6
+  Terminals = {"text"}
+  NonTerminals = {"pagecount"}
 CONSTRAINT Emit
 CHECK_DEADLOCK FALSE
